@@ -2,9 +2,10 @@
   `walframe` stream (C17): the real `Wal` / `GraphEngine::open` on a temp dir against Model.WalFrame.
     wopen | wappend <record> | wclose          Wal::open / append(+fsync) / drop
     tail <hex> | chop <k> | flipend <k> <bit>  raw damage at the end of the file (handle closed)
+    flipat <pos> <bit> | zeroat <pos> <len>     raw damage anywhere in the file (valid frames may follow it)
     read                                       Wal::replay_committed_from_path   obs: ok <n> <txids> | err <class>
     wlen                                       detail: <len>:<crc32 of the file>
-    eopen | ecommit <ext> | ebig <ext> <size> | eclose    GraphEngine::open, one-node transactions, drop
+    eopen | ecommit <ext> [<size>|<value>] | eclose       GraphEngine::open, one-node transactions (+ property k), drop
   model-out = Model with `Cfg.current`; spec-out = the ideal log of Spec.TxLog run on the same operations.
 -/
 import Nervus.Driver.CodecTok
@@ -68,6 +69,16 @@ def damage (ws : List String) (f : Bytes) : Option Bytes :=
         some (f.set i ((f.getD i 0) ^^^ (UInt8.ofNat (2 ^ (b % 8)))))
       else some f
     | _, _ => none
+  | ["flipat", p, b] =>
+    match p.toNat?, b.toNat? with
+    | some i, some b =>
+      if i < f.length then some (f.set i ((f.getD i 0) ^^^ (UInt8.ofNat (2 ^ (b % 8))))) else some f
+    | _, _ => none
+  | ["zeroat", p, n] =>
+    match p.toNat?, n.toNat? with
+    | some i, some n =>
+      some (f.take i ++ List.replicate (min n (f.length - i)) 0 ++ f.drop (i + n))
+    | _, _ => none
   | _ => none
 
 /-- append a list of records through `Wal::append`; stops at the first failure (the earlier frames stay) -/
@@ -118,10 +129,13 @@ def run (cfg : WalFrame.Cfg) (ideal : Bool) (sd : Side) (ws : List String) : Sid
   | "ecommit" :: ext :: rest =>
     match sd.eng, ext.toNat? with
     | some (txid, tc), some ext =>
+      -- optional property `k`: a number = a string of that many `a`s, otherwise a value token
       let prop : List Rec := match rest with
-        | [size] => match size.toNat? with
+        | [tok] => match tok.toNat? with
           | some n => [.setNodeProperty sd.nodes [0x6b] (.str (List.replicate n 0x61))]
-          | none => []
+          | none => match parseVal tok with
+            | some v => [.setNodeProperty sd.nodes [0x6b] v]
+            | none => []
         | _ => []
       let recs : List Rec := [.beginTx txid, .createNode ext 0 sd.nodes] ++ prop ++ [.commitTx txid]
       match appendAll cfg ⟨sd.file, tc⟩ recs with
@@ -146,6 +160,8 @@ def step (st : St) (ws : List String) : St × String × String × String :=
     | "tail" :: _ => "-"
     | "chop" :: _ => "-"
     | "flipend" :: _ => "-"
+    | "flipat" :: _ => "-"
+    | "zeroat" :: _ => "-"
     | _ => if so == "bad-op" then "-" else obsOf so
   -- known finding: the complete valid frames of the file violate the transaction protocol
   let trig :=
